@@ -60,8 +60,8 @@ _M_NOTE = ("Trusted base: the in-memory ZooKeeper fake (vf/zkfake.py, conformanc
            "the driver replaces the four children watches by calling the registered handler for each watched path whose children changed; virtual clock; "
            "fork() gives each crash/restart world a private copy of the stored state.")
 CHECKS['C09'] = dict(engine='master-zk', category='exploration', design_ref='DESIGN 3 C09', note=_M_NOTE,
-                     text="After init_schedule() and every reschedule()+check_placement_integrity() of generated ZooKeeper-level histories (with master restarts) the full /placement tree is compared with Master.cell: existence, server, identity, expires.",
-                     technique="runtime monitoring: full backend dump vs model after every cycle of generated event histories")
+                     text="After init_schedule() and every reschedule()+check_placement_integrity() of generated ZooKeeper-level histories (with master restarts) the full /placement tree is compared with Master.cell: existence, server, identity, expires. Every 5th case runs the real Master.run_loop() on two OS threads (watch callbacks on a callback thread that Master.watch blocks, operator commands at the start-up joints, while the master is busy and at idle, a parked callback, a second master) and evaluates the same oracle plus 'no entry for an unscheduled instance' when the master has nothing left to do.",
+                     technique="runtime monitoring: full backend dump vs model after every cycle of generated event histories; two-thread runs of the real service loop with forced switches (sys.monitoring LINE)")
 CHECKS['C10'] = dict(engine='master-zk', category='fault_enumeration', design_ref='DESIGN 3 C10', note=_M_NOTE,
                      text="Every mutating ZooKeeper call of every init_schedule()/reschedule() of every generated history is a crash point (fork before it, plus one after the last): no double entry at the cut; a new master starts, republishes a placement equal to its model and passes its own integrity check.",
                      technique="runtime monitoring with fault injection: fork at every storage write, restart oracle in the child")
@@ -69,7 +69,7 @@ CHECKS['C11'] = dict(engine='master-zk', category='exploration', design_ref='DES
                      text="After every completed cycle a forked child rebuilds the model with load_model() and it is compared with a reference computed from the stored state alone (healthy servers: presence ctime <= entry ctime, recorded instances fit).",
                      technique="runtime monitoring: forked restart after every cycle vs reference computed from the stored state")
 CHECKS['C19'] = dict(engine='api-ldapfake', category='exploration', design_ref='DESIGN 5 C19',
-                     note="Trusted base: in-memory directory under the real treadmill.admin._ldap.Admin (wire operations only are replaced); the harness mirror of stored reservations and its own unit parser; schema-invalid requests are outside the domain.",
+                     note="Trusted base: in-memory directory under the real treadmill.admin._ldap.Admin (wire operations only are replaced) in one case of three, in the other two real ldap3 connections on ldap3's MOCK_SYNC directory under the unmodified Admin; the harness mirror of stored reservations and its own unit parser; schema-invalid requests are outside the domain.",
                      text="Sequences of create/update/delete reservation requests are issued to the real API (real schema validation, real admin objects) and every accept/reject decision is compared with an independent sum over the stored reservations, per dimension and per limited trait.",
                      technique="runtime monitoring: reference-model oracle (independent capacity sum) on every API decision of generated request sequences")
 CHECKS['C20'] = dict(engine='appmonitor-loop', category='exploration', design_ref='DESIGN 5 C20',
